@@ -459,7 +459,7 @@ def subprocess_case(mon, rng, case):
         plan["env_without"] = case["env_without"]
     proj = Project(case["program"], plan)
     try:
-        res = proj.run(args + ["-f", "plain", "-o", "plain.txt", "--no-summary"])
+        res = proj.run(args + ["-f", "plain", "-o", "plain.txt", "--no-summary"], environment=RB.pick_environment(rng, mon, ["plain", "plain", "optimized", "warnings_as_errors_for_user_code"]))
     finally:
         proj.close()
     if res.get("timeout"):
